@@ -164,6 +164,11 @@ def ensure_harness():
         r = sh(["cargo", "build", "--release", "--offline"], cwd=HARNESS, check=False, timeout=3000)
         if r.returncode != 0:
             raise BuildError("harness build failed (does /repo still compile?):\n" + r.stdout[-8000:])
+        # the key pool is generated by ONE process, before any sharded run (processes that generated keys side by
+        # side once ended up with different pools: false alarms "key id is not a pool key" on a fresh cache)
+        if not os.path.exists(os.path.join(CACHE, "keys", "k13.p8")):
+            subprocess.run([IMPLRUN], input="[12,1]\n", stdout=subprocess.PIPE, stderr=subprocess.PIPE, text=True,
+                           timeout=600, env=ENV)
 
 
 def ensure_tuftool():
